@@ -141,6 +141,7 @@ def specs(tier, seed):
         {"select": "all", "weigh": "equal", "mod": "limitdeltas"},
         {"select": "all", "weigh": "invvol", "warm": "after_gate"},
         {"select": "all", "weigh": "equal", "rebal": "overtime"},
+        {"select": "these", "weigh": "specified", "rebal": "lazy"},  # trades booked with update=False, the refresh left to the loop
     ]
     modes = [(True, None, None), (False, None, None), (True, "propdec", None), (False, "maxflat", 0.25), (True, None, 0.5), (False, "pershare", None)]
     caps = [5e3, 1e6, 1e9]
@@ -199,7 +200,7 @@ def specs(tier, seed):
 
 
 def run(ctx):
-    ctx.rule = "calendar-gated child definitions (7 gates x 8 bodies incl. stateful and random ones) x parent schedules (never funded, funded once, re-weighted daily incl. zero, de-funded then re-funded, levered, shorted) x position mode x commission x bid/offer x parent capital; a case is non-trivial if the stand-alone index moves and the case completed"
+    ctx.rule = "calendar-gated child definitions (7 gates x 9 bodies incl. stateful and random ones) x parent schedules (never funded, funded once, re-weighted daily incl. zero, de-funded then re-funded, levered, shorted) x position mode x commission x bid/offer x parent capital; a case is non-trivial if the stand-alone index moves and the case completed"
     ctx.assumptions += [
         "child definitions are deterministic (no random algos: the paper copy and the real child share the RNG) and their stack starts with a calendar scheduler (property's own quantifier); ungated stacks act on the synthetic pre-start row inside the paper copy",
         "equality to 1e-12 relative (same code path, same notional)",
